@@ -48,6 +48,20 @@ impl Scratch {
             let _ = std::fs::create_dir_all(&p);
             p
         };
+        // remove scratch left behind by simulator processes that were killed
+        if let Ok(rd) = std::fs::read_dir(&base) {
+            for e in rd.flatten() {
+                let n = e.file_name().to_string_lossy().to_string();
+                if n.starts_with("ctesim.") {
+                    if let Some(pid) = n.rsplit('.').next().and_then(|p| p.parse::<u32>().ok()) {
+                        if !Path::new(&format!("/proc/{}", pid)).exists() {
+                            let _ = std::fs::remove_dir_all(e.path());
+                            let _ = std::fs::remove_file(e.path());
+                        }
+                    }
+                }
+            }
+        }
         let dir = base.join(format!("ctesim.{}.{}", tag, std::process::id()));
         let _ = std::fs::remove_dir_all(&dir);
         std::fs::create_dir_all(&dir).expect("create scratch dir");
@@ -251,6 +265,9 @@ fn run_worker(
 
 /// Run all chunks; returns one outcome per job index.
 pub fn run_chunks(chunks: Vec<Chunk>, opts: &RunOpts, scratch: &Path) -> BTreeMap<usize, Outcome> {
+    let total_chunks = chunks.len();
+    let done_chunks = Arc::new(std::sync::atomic::AtomicUsize::new(0));
+    let t_start = Instant::now();
     let queue = Arc::new(Mutex::new(
         chunks.into_iter().enumerate().rev().collect::<Vec<_>>(),
     ));
@@ -261,12 +278,18 @@ pub fn run_chunks(chunks: Vec<Chunk>, opts: &RunOpts, scratch: &Path) -> BTreeMa
         let results = results.clone();
         let opts = opts.clone();
         let scratch = scratch.to_path_buf();
+        let done_chunks = done_chunks.clone();
         handles.push(std::thread::spawn(move || loop {
             let next = queue.lock().unwrap().pop();
             let (ci, chunk) = match next {
                 Some(c) => c,
                 None => break,
             };
+            // progress on stderr for long campaigns (never on stdout, never a decision input)
+            let d = done_chunks.fetch_add(1, std::sync::atomic::Ordering::SeqCst);
+            if total_chunks >= 400 && d > 0 && d % (total_chunks / 20).max(1) == 0 {
+                eprintln!("[ctesim] {}/{} chunks dispatched, {:.0}s", d, total_chunks, t_start.elapsed().as_secs_f64());
+            }
             let mut remaining: Vec<(usize, Value)> = chunk.jobs.clone();
             let mut attempt = 0;
             while !remaining.is_empty() {
